@@ -342,3 +342,16 @@ package clickhouse_planner
 //@     modifies elems(p.renewMainAfter)
 //@   loop 4:
 //@     modifies p.fastUnwrap
+
+// Range aggregations over an unwrapped value on the SQL path: each is the SQL
+// aggregate of its definition over the values of the bucket; rate is the sum divided
+// by the range in seconds as a real number (a [1500ms] range divides by 1.5).
+//@ func (*UnwrapFunctionPlanner).Process [C08]
+//@   flag checks=-index,-assert
+//@   check rate: result1 == nil && u.Func == "rate" ==> typeis(val, "*sql.RawObject") && rawText(val) == "sum(unwrap_1.value) / " + fmtf(real(u.Duration.Milliseconds()) / 1000)
+//@   check sum-over-time: result1 == nil && u.Func == "sum_over_time" ==> typeis(val, "*sql.RawObject") && rawText(val) == "sum(unwrap_1.value)"
+//@   check avg-over-time: result1 == nil && u.Func == "avg_over_time" ==> typeis(val, "*sql.RawObject") && rawText(val) == "avg(unwrap_1.value)"
+//@   check max-over-time: result1 == nil && u.Func == "max_over_time" ==> typeis(val, "*sql.RawObject") && rawText(val) == "max(unwrap_1.value)"
+//@   check min-over-time: result1 == nil && u.Func == "min_over_time" ==> typeis(val, "*sql.RawObject") && rawText(val) == "min(unwrap_1.value)"
+//@   check first-over-time: result1 == nil && u.Func == "first_over_time" ==> typeis(val, "*sql.RawObject") && rawText(val) == "argMin(unwrap_1.value, unwrap_1.timestamp_ns)"
+//@   check last-over-time: result1 == nil && u.Func == "last_over_time" ==> typeis(val, "*sql.RawObject") && rawText(val) == "argMax(unwrap_1.value, unwrap_1.timestamp_ns)"
